@@ -204,6 +204,20 @@ CLAIMED = {
         "the static whitelist).",
         "DESIGN.md §6 C16",
     ),
+    "C14": (
+        "Lean 4 theorems on the can_do decision and role read-back + differential correspondence of can_do + authorization matrix through the real web.start_client on both backends",
+        "Proof: NostrRelay/Props/C14.lean proves that with authentication enabled an action is allowed iff the token's "
+        "roles intersect the roles configured for it (always when disabled or unconfigured) and that stored role strings "
+        "read back as the set of their lower-cased characters. Tie: real Authenticator.can_do on the full matrix. Search: "
+        "through start_client with real NIP-42 identities on SQLite and LMDB — EVENT stored/broadcast iff roles intersect "
+        "'save' (else one OK false 'restricted', not stored, not seen by an all-powerful observer), REQ served iff roles "
+        "intersect 'query' (else NOTICE 'restricted', no subscription, nothing pushed later), the homeserver output "
+        "validator on stored answers and live pushes, role assignments set repeatedly and read back. Two defects found "
+        "here were repaired (no save check on LMDB; live pushes bypassing the output validator).",
+        "Trusted: the wiring (which call sites consult can_do / check_output) is exercised, not proved; evaluate_target is "
+        "the shipped no-op; BIP-340.",
+        "DESIGN.md §6 C14",
+    ),
 }
 
 NOT_YET = "not reached yet in this round (model/tie not built); see DESIGN.md §10 staging — no weaker technique is substituted"
